@@ -178,6 +178,24 @@ def gen_image(rng, kind, n, base, lo, hi):
     return out[:n]
 
 
+SWEEP_PREFIXES = {'MAIN': (), 'CB': (0xCB,), 'ED': (0xED,), 'DD': (0xDD,), 'FD': (0xFD,), 'DDCB': (0xDD, 0xCB, 0x05), 'FDCB': (0xFD, 0xCB, 0xFB)}
+SWEEP_TAIL = (0x21, 0x34, 0x12, 0x3E, 0x07, 0x11, 0x78, 0x56, 0x47, 0x4F, 0x57)   # LD HL,nn; LD A,n; LD DE,nn; 3 one-byte loads (resync)
+
+
+def sweep_cases(per_image=16):
+    """Deterministic opcode sweep: every slot of every prefix table once, each followed by multi-byte
+    instructions (so that a wrong instruction length in sna2ctl's decoder puts the following -C
+    directives inside instructions) and a one-byte resync sled. 7 x 256 / per_image cases."""
+    for tbl, prefix in SWEEP_PREFIXES.items():
+        for first in range(0, 256, per_image):
+            data = []
+            for op in range(first, first + per_image):
+                data += list(prefix) + [op] + list(SWEEP_TAIL)
+            data.append(0xC9)
+            yield {'kind': f'sweep-{tbl}', 'org': 32768, 'data': data, 'start': None, 'end': None,
+                   'opts': ['-C'] + (['-r'] if first % (2 * per_image) else []), 'ini': {}}
+
+
 # ---------------------------------------------------------------- code maps
 
 def trace_addresses(simulator_mod, mem, pcs, steps):
